@@ -1285,13 +1285,19 @@ class Image(Vectorizable, Landmarkable, Viewable, LandmarkableViewable):
             raise ImageBoundaryError(min_indices, max_indices, min_bounded, max_bounded)
 
         new_shape = (max_bounded - min_bounded).astype(int)
-        return self.warp_to_shape(
+        result = self.warp_to_shape(
             new_shape,
             Translation(min_bounded, skip_checks=True),
             order=0,
             warp_landmarks=True,
             return_transform=return_transform,
         )
+        # warping replaces NaN samples by 0, but a crop is an exact copy of
+        # the block of pixels (NaN, i.e. missing, values included)
+        cropped = result[0] if return_transform else result
+        block = tuple(slice(int(a), int(b)) for a, b in zip(min_bounded, max_bounded))
+        cropped.pixels[...] = self.pixels[(slice(None),) + block]
+        return result
 
     def crop_to_pointcloud(
         self, pointcloud, boundary=0, constrain_to_boundary=True, return_transform=False
